@@ -14,23 +14,26 @@ META = {
     "design_ref": "§6 C21, §5.6",
     "technique": "Lean 4 theorem by induction over the pattern (static check_type acceptance implies run-time coercion succeeds for "
     "every conforming value) over class tables regenerated from the running interpreter + differential correspondence",
-    "text": "Lean theorem C21_partial_seqPatterns about models of TypeParser.check_type and TypeParser.coerce: if check_type(S) "
-    "passes for a pattern T (default flags, no super-to-sub casting) then, for every value that conforms to S and is built from "
-    "scalars and list/tuple/set/frozenset/dict, coercion by T (with or without superclass_auto_cast) succeeds or fails only through a "
-    "fixed-length-tuple arity mismatch.  Proved by induction over T for the restricted pattern grammar `seqPatterns` (classes, Any, "
-    "unions, o[T] with o in {list, Sequence, MutableSequence, Iterable, Collection}, tuple[T1..Tn], tuple[T, ...]; sets, mappings "
-    "and MultiInputObj occur in T as bare classes) against ANY well-formed Any-free source type S, any depth, any value size, under "
-    "explicit decidable exclusions: str/bytes values inhabit only the classes str/bytes (D13 territory), and no position where a "
-    "constructor call raises or cannot be made (findings D25, D25b, D25c, D25d).  The class-level base case C21_tables (static "
-    "coercible(a, c) implies every concrete class below a is an instance of c or run-time coercible to c) is a `decide` over the "
-    "issubclass matrix and COERCIBLE/NOT_COERCIBLE tables dumped from the interpreter on every run.  Witness theorems "
-    "C21_witness_* / C21_full_statement_false show the full statement fails on the pinned tree.  Both models are tied to the code "
-    "by running check_type / matches_type on generated pairs (S, T) and, for accepted pairs, the field converter "
-    "make_converter(T)(v) on values generated from S, against the Lean driver; the harness also counts how many explored cases "
-    "lie under the theorem's hypotheses and checks the implementation behaves there as the theorem says.",
+    "text": "Lean theorem C21_partial_hashTyItems about models of TypeParser.check_type and TypeParser.coerce: if check_type(S) "
+    "passes for a pattern T (default flags, no super-to-sub casting; acceptance through the MultiInputObj retry included) then, for "
+    "every value that conforms to S and is built from scalars and list/tuple/set/frozenset/dict, coercion by T (with or without "
+    "superclass_auto_cast) succeeds or fails only through a fixed-length-tuple arity mismatch.  Proved by induction over T for the "
+    "WHOLE pattern grammar (classes, Any, unions, every generic origin: list/set/frozenset/abstract sequences and sets, "
+    "dict/Mapping/MutableMapping, MultiInputObj[T], tuple[T1..Tn], tuple[T, ...]) against any well-formed Any-free source type S, "
+    "any depth, any value size, under explicit decidable exclusions: str/bytes values inhabit only the classes str/bytes (D13 "
+    "territory), and no position where a constructor call raises or cannot be made (findings D25, D25b, D25d) or where a set / dict "
+    "key is built from items whose pattern is not `hashTy` (static form of D25c, the remaining restriction).  Supporting "
+    "inductions: values stored by a hashTy pattern are hashable (C21_hashTy_hashable); outside D25d every pattern raises TypeError "
+    "only.  The class-level base case C21_tables (static coercible(a, c) implies every concrete class below a is an instance of c or "
+    "run-time coercible to c) is a `decide` over the issubclass matrix and COERCIBLE/NOT_COERCIBLE tables dumped from the "
+    "interpreter on every run.  C21_partial_seqPatterns is the earlier, narrower statement.  Witness theorems C21_witness_* / "
+    "C21_full_statement_false show the full statement fails on the pinned tree.  Both models are tied to the code by running "
+    "check_type / matches_type on generated pairs (S, T) and, for accepted pairs, the field converter make_converter(T)(v) on values "
+    "generated from S, against the Lean driver; the harness also counts how many explored cases lie under the theorems' hypotheses "
+    "and checks the implementation behaves there as the theorems say.",
     "note": "Trusted: Lean kernel; hand-written models of check_type/expand_and_check and coerce (tie = differential + regenerated "
-    "tables); finite class universe (no fileformats/numpy/ty.Type/StateArray); the theorem does not cover generic set/dict/"
-    "MultiInputObj patterns in T (correspondence only) nor values of exotic classes (str as Sequence[str], range, dict views).",
+    "tables); finite class universe (no numpy/ty.Type/StateArray); the theorem does not cover values of exotic classes (str as "
+    "Sequence[str], range, dict views) nor set items / dict keys whose pattern is not hashTy (e.g. set[Any]).",
     "rule": "case = (S, T, values of S); distinct by canonical JSON of (S, T); non-trivial = the static check passes and at least "
     "one of S, T is generic or a union",
     "assumptions": ["run-time values of an abstract source type are instances of list/tuple/set/frozenset/dict (not str/bytes/range/dict views)"],
@@ -41,7 +44,9 @@ _NS = "PydraModel.Typing."
 OBLIGATIONS = [
     _NS + n
     for n in (
+        "C21_partial_hashTyItems",
         "C21_partial_seqPatterns",
+        "C21_hashTy_hashable",
         "C21_tables",
         "C21_witness_bytes",
         "C21_witness_abstract",
@@ -51,7 +56,7 @@ OBLIGATIONS = [
     )
 ]
 LEAN_TARGETS = ["PydraModel.Props.C21", "PydraModel.Gen.TypeCtorSamples"]
-MODEL_TARGETS = ["PydraModel.Typing.Model", "PydraModel.Typing.Defects", "PydraModel.Typing.Static2", "PydraModel.DriverUtil"]
+MODEL_TARGETS = ["PydraModel.Typing.Model", "PydraModel.Typing.Defects", "PydraModel.Typing.Static2", "PydraModel.Typing.IdemU", "PydraModel.DriverUtil"]
 EXTRACTORS = [typing_tables]
 
 RUNTIME_SAC = True  # the parser installed on task fields by make_converter (value re-read from the source by the extractor)
@@ -136,14 +141,16 @@ def run_cases(ctx, cases):
             for v, r, hyp in zip(c["vals"], impl["runs"], a[2::2]):
                 if not hyp["conf"]:
                     raise RuntimeError(f"Lean `conforms` rejects a value the Python oracle accepts: {json.dumps(c)[:300]}")
-                covered = impl["check"] == ["ok"] and c["T"] not in (["c", "MultiInputObj"],) and not _is_moo(c["T"]) and all(
-                    hyp[k] for k in ("seqPat", "anyFree", "std", "strict")
-                ) and not hyp["ex21"]
-                if covered:
-                    ctx.count("under-theorem-hypotheses")
+                plain_T = c["T"] not in (["c", "MultiInputObj"],) and not _is_moo(c["T"])  # no pre-converter in play
+                base = impl["check"] == ["ok"] and plain_T and all(hyp[k] for k in ("wf", "anyFree", "std", "strict"))
+                if base and hyp["seqPat"] and not hyp["ex21"]:
+                    ctx.count("under-hypotheses-of-C21_partial_seqPatterns")
+                if base and not hyp["ex21x"]:
+                    ctx.count("under-hypotheses-of-C21_partial_hashTyItems")
+                if base and ((hyp["seqPat"] and not hyp["ex21"]) or not hyp["ex21x"]):
                     if r[0] != "ok" and not (r[1] == "TypeError" and te.arity_excuse(c["T"], v)):
                         ctx.tie_broken.append({"kind": "theorem-vs-implementation", "case": c, "value": v, "impl": r,
-                                               "detail": "C21_partial_seqPatterns' hypotheses hold but the implementation rejects the value"})
+                                               "detail": "the hypotheses of a C21 theorem hold but the implementation rejects the value"})
         pos += 1 + 2 * n
         # spec: static acceptance => every conforming value is accepted at run time (tuple arity aside)
         ok, defect, why = True, None, None
@@ -183,9 +190,10 @@ def run_cases(ctx, cases):
 
 
 SUBCLS = {
-    "int": ["bool"], "float": ["int", "bool"], "Sequence": ["list", "tuple"], "Mapping": ["dict"], "SetABC": ["set", "frozenset"],
+    "int": ["bool", "FieldInteger"], "float": ["int", "bool", "FieldInteger", "FieldDecimal"], "FieldInteger": ["int", "bool"], "FieldDecimal": ["float", "int"],
+    "FieldText": ["str"], "FieldBoolean": ["bool"], "bool": ["FieldBoolean", "FieldInteger"], "Sequence": ["list", "tuple"], "Mapping": ["dict"], "SetABC": ["set", "frozenset"],
     "MutableSequence": ["list"], "MutableSet": ["set"], "MutableMapping": ["dict"], "Iterable": ["list", "set", "Sequence"],
-    "Collection": ["list", "frozenset"], "PathLike": ["Path", "str"], "Path": ["PosixPath"], "object": ["int", "str"], "str": ["Path"],
+    "Collection": ["list", "frozenset"], "PathLike": ["Path", "str"], "Path": ["PosixPath"], "object": ["int", "str"], "str": ["Path", "FieldText"],
     "list": ["MultiInputObj", "tuple", "set"], "tuple": ["list"], "set": ["list", "frozenset"], "frozenset": ["set", "tuple"], "dict": ["Mapping"],
 }  # fmt: skip
 
